@@ -15,7 +15,7 @@ STATICS = ["ACTOR_IDS", "DEAD_LETTER_COUNT", "CONFIGURED_DEFAULT_MAILBOX_CAPACIT
 EFFECTFUL = {
     # shim: channels, hooks, globals
     "send", "try_send", "blocking_send", "poll_recv", "recv", "try_recv", "close", "is_closed",
-    "upgrade", "strong_count", "channel", "blocking_recv",
+    "upgrade", "strong_count", "channel", "blocking_recv", "build", "vx_thread_enter", "vx_thread_exit",
     "on_start", "poll_on_run", "on_run", "on_stop", "handle", "on_tell_result",
     "drop", "lock", "fetch_add", "get", "get_or_init", "set", "vx_drop_opt_guard", "drop__WaitForGuard",
     "vx_emit_dead_letter",
@@ -33,8 +33,8 @@ EFFECTFUL = {
 
 def ACTOR_REF_FNS(features):
     names = ["new", "identity", "downgrade", "is_alive", "tell", "tell_with_timeout", "kill", "stop",
-             "blocking_tell", "blocking_tell_no_timeout", "tell_blocking",
-             "ask", "ask_with_timeout", "blocking_ask", "blocking_ask_no_timeout", "ask_blocking", "ask_join"]
+             "blocking_tell", "blocking_tell_no_timeout", "blocking_tell_with_timeout_impl", "tell_blocking",
+             "ask", "ask_with_timeout", "blocking_ask", "blocking_ask_no_timeout", "blocking_ask_with_timeout_impl", "ask_blocking", "ask_join"]
     if "metrics" in features:
         names += ["metrics_collector", "metrics", "message_count", "avg_processing_time", "max_processing_time"]
     return names
@@ -214,10 +214,17 @@ SPECS["actor_ref.rs::ActorRef::blocking_tell_no_timeout"] = dict(ret="result", e
     C("blocking_tell_no_timeout.dead_letters", "C13", "r_dl::<M>(self.id, old(w).log(), final(w).log(), dl_reason_tell(result), \"blocking_tell\"@)"),
     C("blocking_tell_no_timeout.frame", "C12", AMB),
 ])
+SPECS["actor_ref.rs::ActorRef::blocking_tell_with_timeout_impl"] = dict(ret="result", ensures=[
+    C("blocking_tell_timeout.relation", "C17 C10 C01 C02 C13",
+      "r_blocking_tell_timeout::<M>(self.hv(), msg_id(msg), timeout, old(w).log(), final(w).log(), result)"),
+    C("blocking_tell_timeout.dead_letters", "C13",
+      "rt_build_failed(old(w).log(), final(w).log()) || r_dl2::<M>(self.id, old(w).log(), final(w).log(), dl_reason_tell(result), \"tell\"@, \"blocking_tell\"@)"),
+    C("blocking_tell_timeout.frame", "C12", AMB),
+])
 SPECS["actor_ref.rs::ActorRef::blocking_tell"] = dict(ret="result", ensures=[
     C("blocking_tell.none_is_no_timeout_variant", "C17", "timeout is None ==> r_tell::<M>(self.hv(), msg_id(msg), old(w).log(), final(w).log(), result, \"blocking_tell\"@)"),
     C("blocking_tell.some_goes_to_timeout_impl_with_d", "C17 C10",
-      "timeout matches Some(d) ==> final(w).log() =~= old(w).log().push(Eff::Opaque(OpaqueTag::BlockingTellTimeout { pid: msg_id(msg), d: d, chan: self.mbx_chan() }))"),
+      "timeout matches Some(d) ==> r_blocking_tell_timeout::<M>(self.hv(), msg_id(msg), d, old(w).log(), final(w).log(), result)"),
 ])
 SPECS["actor_ref.rs::ActorRef::tell_blocking"] = dict(ret="result", ensures=[
     C("tell_blocking.alias_ignores_timeout", "C17", "r_tell::<M>(self.hv(), msg_id(msg), old(w).log(), final(w).log(), result, \"blocking_tell\"@)"),
@@ -267,13 +274,21 @@ SPECS["actor_ref.rs::ActorRef::blocking_ask_no_timeout"] = dict(ret="result", en
     C("blocking_ask_no_timeout.dead_letters", "C13", "r_dl::<M>(self.id, old(w).log(), final(w).log(), dl_reason_ask::<T::Reply>(result), \"blocking_ask\"@)"),
     C("blocking_ask_no_timeout.frame", "C12", AMB),
 ])
-SPECS["actor_ref.rs::ActorRef::blocking_ask"] = dict(ret="result", ensures=[
+BASK_PRE = [C("blocking_ask.pre.unpoisoned", "C12", "!old(w).poisoned()")]
+SPECS["actor_ref.rs::ActorRef::blocking_ask_with_timeout_impl"] = dict(ret="result", requires=BASK_PRE, ensures=[
+    C("blocking_ask_timeout.relation", "C17 C10 C01 C02 C03 C13 C15",
+      "r_blocking_ask_timeout::<M, T::Reply>(self.hv(), msg_id(msg), timeout, *old(w), *final(w), result)"),
+    C("blocking_ask_timeout.dead_letters", "C13",
+      "rt_build_failed(old(w).log(), final(w).log()) || r_dl2::<M>(self.id, old(w).log(), final(w).log(), dl_reason_ask::<T::Reply>(result), \"ask\"@, \"blocking_ask\"@)"),
+    C("blocking_ask_timeout.frame", "C12", AMB),
+])
+SPECS["actor_ref.rs::ActorRef::blocking_ask"] = dict(ret="result", requires=BASK_PRE, ensures=[
     C("blocking_ask.none_is_no_timeout_variant", "C17",
       "timeout is None ==> r_ask_core::<M, T::Reply>(self.hv(), msg_id(msg), old(w).log(), final(w).log(), result, \"blocking_ask\"@)"),
     C("blocking_ask.some_goes_to_timeout_impl_with_d", "C17 C10",
-      "timeout matches Some(d) ==> final(w).log() =~= old(w).log().push(Eff::Opaque(OpaqueTag::BlockingAskTimeout { pid: msg_id(msg), d: d, chan: self.mbx_chan() }))"),
+      "timeout matches Some(d) ==> r_blocking_ask_timeout::<M, T::Reply>(self.hv(), msg_id(msg), d, *old(w), *final(w), result)"),
 ])
-SPECS["actor_ref.rs::ActorRef::ask_blocking"] = dict(ret="result", ensures=[
+SPECS["actor_ref.rs::ActorRef::ask_blocking"] = dict(ret="result", requires=BASK_PRE, ensures=[
     C("ask_blocking.alias_ignores_timeout", "C17",
       "r_ask_core::<M, T::Reply>(self.hv(), msg_id(msg), old(w).log(), final(w).log(), result, \"blocking_ask\"@)"),
 ])
@@ -347,13 +362,13 @@ def _erased():
     btell = [
         C("erased.blocking_tell.none_same_relation", "C16", "timeout is None ==> r_tell::<M>(%s, msg_id(msg), old(w).log(), final(w).log(), r, \"blocking_tell\"@)" % T),
         C("erased.blocking_tell.some_keeps_its_timeout", "C16",
-          "timeout matches Some(d) ==> final(w).log() =~= old(w).log().push(Eff::Opaque(OpaqueTag::BlockingTellTimeout { pid: msg_id(msg), d: d, chan: %s.mbx }))" % T)]
+          "timeout matches Some(d) ==> r_blocking_tell_timeout::<M>(%s, msg_id(msg), d, old(w).log(), final(w).log(), r)" % T)]
     ask = [C("erased.ask.same_relation_as_inherent", "C16", "r_ask::<M, R>(%s, msg_id(msg), *old(w), *final(w), r, \"ask\"@)" % T)]
     askt = [C("erased.ask_with_timeout.same_relation_as_inherent", "C16", "r_ask_timeout::<M, R>(%s, msg_id(msg), timeout, *old(w), *final(w), r, \"ask\"@)" % T)]
     bask = [
         C("erased.blocking_ask.none_same_relation", "C16", "timeout is None ==> r_ask_core::<M, R>(%s, msg_id(msg), old(w).log(), final(w).log(), r, \"blocking_ask\"@)" % T),
         C("erased.blocking_ask.some_keeps_its_timeout", "C16",
-          "timeout matches Some(d) ==> final(w).log() =~= old(w).log().push(Eff::Opaque(OpaqueTag::BlockingAskTimeout { pid: msg_id(msg), d: d, chan: %s.mbx }))" % T)]
+          "timeout matches Some(d) ==> r_blocking_ask_timeout::<M, R>(%s, msg_id(msg), d, *old(w), *final(w), r)" % T)]
     same = lambda lab: [C(lab, "C16 C11", "r.target() == self.target()")]
     S = {}
     S["handler.rs::TellHandler::tell"] = dict(ensures=tell)
@@ -362,7 +377,7 @@ def _erased():
     S["handler.rs::TellHandler::as_control"] = dict(pure=True, ensures=same("erased.tell_handler.as_control.same_actor"))
     S["handler.rs::AskHandler::ask"] = dict(requires=ASK_PRE, ensures=ask)
     S["handler.rs::AskHandler::ask_with_timeout"] = dict(requires=ASK_PRE, ensures=askt)
-    S["handler.rs::AskHandler::blocking_ask"] = dict(ensures=bask)
+    S["handler.rs::AskHandler::blocking_ask"] = dict(requires=BASK_PRE, ensures=bask)
     S["handler.rs::AskHandler::as_control"] = dict(pure=True, ensures=same("erased.ask_handler.as_control.same_actor"))
     S["handler.rs::WeakTellHandler::as_weak_control"] = dict(pure=True, ensures=same("erased.weak_tell_handler.as_weak_control.same_actor"))
     S["handler.rs::WeakAskHandler::as_weak_control"] = dict(pure=True, ensures=same("erased.weak_ask_handler.as_weak_control.same_actor"))
@@ -633,7 +648,7 @@ TRUSTED_BASE = [
     "shim/prelude.rs: assumed contracts of tokio mpsc/oneshot/time/task, std sync primitives, tracing (A1-A11)",
     "shim/prelude.rs: Actor/Message hook contracts (user code is arbitrary; it advances the ghost monitor by one event per call)",
     "contracts/glue.rs: external_body dispatchers for lifted dyn methods and tokio::spawn of the lifecycle",
-    "vx extraction rules R1-R11 (build/<fs>/extraction_report.json shows the diff per function)",
+    "vx extraction rules R1-R13 (build/<fs>/extraction_report.json shows the diff per function)",
     "Verus 0.2026.09.13, Z3",
 ]
 
@@ -651,10 +666,11 @@ ASSUMPTIONS = [
     "A11 Instant / SystemTime values are opaque",
     "A12 extraction rules preserve meaning (async erasure with suspension markers, select! desugaring, World threading)",
     "A13 Verus and Z3 are sound",
+    "A14 rule H: std::thread::spawn runs the closure to completion on a fresh thread (no task-local identity, no lock held) unless it panics; std mpsc delivers the one value sent, recv fails iff the sender "
+    "was dropped unsent; Runtime::block_on returns the future's output; Builder::build may fail (logged as environment fault RtBuildFailed)",
 ]
 
 NOT_UNDER_CONTRACT = [
-    "ActorRef::blocking_tell_with_timeout_impl, ActorRef::blocking_ask_with_timeout_impl (std::thread + nested runtime)",
     "format_cycle_path, Display / debugging_tips / debug_fmt impls",
     "rsactor-derive (proc-macro crate)",
     "user hook bodies (arbitrary)",
